@@ -246,6 +246,11 @@ impl<'a> World<'a> {
                 continue;
             }
             self.stats.crash_points += 1;
+            if self.ep.checks.kill_twin {
+                if let Some(im) = self.images(m) {
+                    self.crash_digests.push((self.step_no, m, [im[0].digest(), im[1].digest(), im[2].digest()]));
+                }
+            }
             // (1) kill image = what the kernel has accepted
             let d = self.decode_and_compare(m, "crash")?;
             if d.count == 0 && self.maps[m].model.is_empty() {
@@ -570,6 +575,7 @@ fn load_faults(ep: &Episode) {
 }
 
 pub struct OnceResult {
+    pub crash_digests: Vec<(u32, usize, [u64; 3])>,
     pub sync_events: Vec<(u32, KOp, String, u64, u64)>,
     pub stop: Option<Stop>,
     pub images: Vec<Option<[Img; 3]>>,
@@ -578,10 +584,15 @@ pub struct OnceResult {
 }
 
 pub fn run_once(ep: &Episode, env: &Env, dirbase: &'static str, only_updates: bool, poison: u8) -> OnceResult {
+    run_once_until(ep, env, dirbase, only_updates, poison, None)
+}
+
+pub fn run_once_until(ep: &Episode, env: &Env, dirbase: &'static str, only_updates: bool, poison: u8, stop_after: Option<u32>) -> OnceResult {
     alloc::set_poison(poison);
     load_faults(ep);
     let mut w = World::new(ep, env, dirbase);
     w.only_updates = only_updates;
+    w.stop_after_step = stop_after;
     let r: StepResult = (|| {
         kernel::with(|k| k.set_step(u32::MAX));
         w.step_no = 0;
@@ -627,6 +638,10 @@ pub fn run_once(ep: &Episode, env: &Env, dirbase: &'static str, only_updates: bo
             kernel::with(|k| k.set_step(i as u32));
             let calls_before = w.stats.api_calls;
             w.exec(step)?;
+            if w.stop_after_step == Some(i as u32) {
+                // crash twin child: everything up to and including this sync call has returned
+                crate::xproc::wait_to_be_killed(&w);
+            }
             w.stats.steps_done += 1;
             let hm = step.handle().and_then(|h| w.handles.get(h as usize).and_then(|x| x.as_ref()).map(|x| x.0));
             if let Some(h) = step.handle() {
@@ -730,7 +745,7 @@ pub fn run_once(ep: &Episode, env: &Env, dirbase: &'static str, only_updates: bo
         stats.bytes_written = k.bytes_written;
     });
     alloc::set_poison(0);
-    OnceResult { sync_events: std::mem::take(&mut w.sync_events), stop: r.err(), images, stats, result_hash: w.result_hash }
+    OnceResult { crash_digests: std::mem::take(&mut w.crash_digests), sync_events: std::mem::take(&mut w.sync_events), stop: r.err(), images, stats, result_hash: w.result_hash }
 }
 
 fn merge_stats(a: &mut RunStats, b: RunStats) {
@@ -761,7 +776,14 @@ pub fn run(ep: &Episode, env: &Env) -> Outcome {
     let mut out = Outcome { violation: None, inconclusive: None, stats: RunStats::default(), trace_hash: 0, result_hash: 0, sync_events: Vec::new() };
     match &ep.plan {
         Plan::Single => {
-            let r = run_once(ep, env, "d", false, ep.poison);
+            let mut r = run_once(ep, env, "d", false, ep.poison);
+            if ep.checks.kill_twin && env.allow_xproc && r.stop.is_none() && !r.crash_digests.is_empty() {
+                match crate::xproc::kill_twin(ep, env, &r.crash_digests) {
+                    Ok(true) => r.stats.probe("kill-twin-compared"),
+                    Ok(false) => {}
+                    Err(v) => r.stop = Some(Stop::Violation(v)),
+                }
+            }
             out.stats = r.stats;
             out.result_hash = r.result_hash;
             out.sync_events = r.sync_events;
